@@ -10,7 +10,8 @@
    values).  UNITS: masses and mass densities are in units of 1/K gram, K = units.MOLES_PER_CC_TO_ATOMS_PER_BARN_CM
    (model mass = K * grams); atoms in units of 1e24.  These are unit conversions done by the adapter's projection.
 
-   STATE.  N[l][n]  number density of n in leaf l (exact rational <<num,den>>, Rational.tla);
+   STATE.  hgt[b]   height of block b (Block.p.height; an integer of HDom) -- volumes are state;
+           N[l][n]  number density of n in leaf l (exact rational <<num,den>>, Rational.tla);
            H[l]     the keys of Component.p.numberDensities (a component "holds" n iff n is a key, also with value 0);
            tr       TRUE once clearNumberDensities has put TRACE_NUMBER_DENSITY (1e-50, modelled as 0) somewhere.
 
@@ -32,6 +33,12 @@
      Clear       clearNumberDensities    every held nuclide -> trace
      AddMass / RemoveMass / SetMass      via calculateNumberDensity(n, m, getVolume()) and setNumberDensity
      SetMassFracs                        rho = density(); listed: N = f rho K / W; the others re-normalised to 1 - sum f
+     AddMasses   addMasses(dict)         addMass entry by entry in dict order, zero entries skipped, negative entries remove;
+                                         the first entry naming a nuclide nobody holds raises ValueError, earlier entries stay applied
+     SetMasses   setMasses(dict)         clearNumberDensities, then setMass entry by entry (same partial application)
+     SetHeight   Block.setHeight(h, conserveMass, adjustList = all nuclides of the block)
+                                         p.height = h, caches cleared; conserveMass: every nuclide with a non-zero homogenised
+                                         density is re-set at block level to density * old/new height (Block.adjustDensity)
 
    INTERPRETATION CHOICES (also in evidence.assumptions)
    * All blocks of one assembly have the same cross-section and symmetry factor (ASSUME EqualAreas): ARMI defines the
@@ -49,6 +56,12 @@
      scaled densities and then touches self.p.detailedNDens / self.p.pinNDens, parameters that blocks (pinNDens),
      assemblies and cores (both) do not define: on every non-component the call raises AttributeError *after* the
      densities were changed.  FALSE is the design in which the call completes.  Clause ScaleAtAnyLevel fails under TRUE.
+   * Geometry changes between composition edits are modelled by SetHeight only (component dimension / temperature changes
+     follow material laws, property C03).  All accounting clauses are state invariants and therefore hold in every geometry
+     reached; read-back clauses are checked on the edits that follow a height change; HeightChange states what the height
+     change itself preserves.
+   * Vector calls are not atomic in the code; the specification transcribes that (RefusalsChangeNothing does not speak about
+     them) and claims read-back for the calls that complete.
    * Component.density() falls back to the material's density when the composition is all-zero; that convenience is
      outside the property: leaf density is observed, and SetMassFracs on a leaf is modelled, only where it is non-zero.
    * RemoveMass never removes all there is (floating point cancellation residues would otherwise decide branches of
@@ -62,12 +75,15 @@ EXTENDS Integers, Sequences, FiniteSets, TLC, Json, FiniteSetsExt, SequencesExt,
 CONSTANTS NLeaf, NBlk, NAsm,
           Parent,       \* <<parent node of node 1, 2, ... CoreId-1>>
           Area,         \* [Leaf -> 1..]   hot cross-section
-          Height,       \* [Blk -> 1..]
+          Height,       \* [Blk -> HDom]  initial heights
+          HDom,         \* heights a block can take
+          HTargets,     \* blocks whose height is changed
+          HVals,        \* heights SetHeight chooses from (a subset of HDom)
           Sym,          \* [Blk -> {1,2,3}]
           W,            \* [Nuc -> 1..]    abstract atomic weights
           N0, H0,       \* initial composition
           Targets,      \* nodes at which edits are applied
-          Vals, Facs, Masses, Maps, FracMaps,   \* parameter domains of the edits
+          Vals, Facs, Masses, Maps, FracMaps, AddMaps, SetMaps,   \* parameter domains of the edits
           MaxLevel,
           LMax, VMax,   \* modelling bound on magnitudes: lcm of all denominators <= LMax, every density <= VMax
           LeafVolCut,   \* design switch, see header
@@ -85,9 +101,9 @@ IsLeaf(x) == x \in Leaf
 IsBlk(x)  == x \in Blk
 IsAsm(x)  == x \in Asm
 
-VARIABLES N, H, tr, act, err
-vars    == <<N, H, tr>>
-allvars == <<N, H, tr, act, err>>
+VARIABLES N, H, tr, hgt, act, err
+vars    == <<N, H, tr, hgt>>
+allvars == <<N, H, tr, hgt, act, err>>
 
 (* ------------------------------------------ the constant tree ------------------------------------------ *)
 KidsTab == TLCEval([x \in Node |-> {c \in 1..(CoreId - 1) : Parent[c] = x}])    \* TLCEval: tables are computed once
@@ -97,23 +113,33 @@ Under == TLCEval([x \in Node |-> LU(x)])                                    \* l
 FirstBlk(a) == CHOOSE b \in KidsTab[a] : \A c \in KidsTab[a] : b <= c   \* self[0]: blocks are stacked in id order
 ISum(S, f(_)) == FoldSet(LAMBDA x, acc : f(x) + acc, 0, S)
 SymOf(x) == IF IsBlk(x) THEN Sym[x] ELSE IF IsAsm(x) THEN Sym[FirstBlk(x)] ELSE 1     \* getSymmetryFactor
-VolLeaf(l) == Area[l] * Height[Parent[l]]                                              \* Component.computeVolume
 BlkArea(b) == RFrac(ISum(KidsTab[b], LAMBDA l : Area[l]), Sym[b])                      \* Block.getArea (hot)
-RECURSIVE VolOf(_)
-VolOf(x) == IF IsLeaf(x) THEN RInt(VolLeaf(x))
-            ELSE IF IsBlk(x) THEN RFrac(ISum(KidsTab[x], VolLeaf), Sym[x])
-            ELSE IF IsAsm(x) THEN QMul(BlkArea(FirstBlk(x)), RInt(ISum(KidsTab[x], LAMBDA b : Height[b])))
-            ELSE QSumSet(KidsTab[x], VolOf)
-Vol == TLCEval([x \in Node |-> VolOf(x)])                                   \* getVolume()
-CutVol == TLCEval([x \in Node |-> IF IsLeaf(x) THEN RFrac(VolLeaf(x), Sym[Parent[x]]) ELSE Vol[x]])   \* the part inside the model
-EditVol == TLCEval([x \in Node |-> IF LeafVolCut THEN CutVol[x] ELSE Vol[x]])   \* the volume getMasses/addMass/setMass/getNumberOfAtoms use
-VolFrac == TLCEval([x \in Node |-> TLCEval([c \in KidsTab[x] |-> QDiv(Vol[c], QSumSet(KidsTab[x], LAMBDA k : Vol[k]))])])   \* getVolumeFractions
+\* geometry as a function of the block heights hh; one table for all height vectors, computed once
+GeoOf(hh) ==
+    LET volLeaf(l) == Area[l] * hh[Parent[l]]                                          \* Component.computeVolume
+        volBlk(b)  == RFrac(ISum(KidsTab[b], volLeaf), Sym[b])                         \* Block.getVolume
+        volAsm(a)  == QMul(BlkArea(FirstBlk(a)), RInt(ISum(KidsTab[a], LAMBDA b : hh[b])))   \* Assembly.getVolume
+        vol == TLCEval([x \in Node |-> IF IsLeaf(x) THEN RInt(volLeaf(x)) ELSE IF IsBlk(x) THEN volBlk(x)
+                                       ELSE IF IsAsm(x) THEN volAsm(x) ELSE QSumSet(Asm, volAsm)])
+        cut == TLCEval([x \in Node |-> IF IsLeaf(x) THEN RFrac(volLeaf(x), Sym[Parent[x]]) ELSE vol[x]])
+    IN [vol  |-> vol,                                                                  \* getVolume()
+        cut  |-> cut,                                                                  \* the part inside the model
+        edit |-> IF LeafVolCut THEN cut ELSE vol,                                      \* what getMasses/addMass/setMass/getNumberOfAtoms use
+        frac |-> TLCEval([x \in Node |-> TLCEval([c \in KidsTab[x] |->              \* getVolumeFractions
+                     QDiv(vol[c], QSumSet(KidsTab[x], LAMBDA k : vol[k]))])])]
+GeoTab  == TLCEval([hh \in [Blk -> HDom] |-> GeoOf(hh)])
+Vol     == GeoTab[hgt].vol
+CutVol  == GeoTab[hgt].cut
+EditVol == GeoTab[hgt].edit
+VolFrac == GeoTab[hgt].frac
 
 ASSUME WellFormed ==
     /\ \A l \in Leaf : Parent[l] \in Blk
     /\ \A b \in Blk : Parent[b] \in Asm /\ KidsTab[b] # {}
     /\ \A a \in Asm : Parent[a] = CoreId /\ KidsTab[a] # {}
     /\ \A n \in Nuc : W[n] \in Nat \ {0}
+    /\ \A b \in Blk : Height[b] \in HDom
+    /\ HTargets \subseteq Blk
 ASSUME EqualAreas ==       \* stated assumption of the property's volume clause at assembly level
     \A a \in Asm : \A b1, b2 \in KidsTab[a] :
         /\ ISum(KidsTab[b1], LAMBDA l : Area[l]) = ISum(KidsTab[b2], LAMBDA l : Area[l])
@@ -122,11 +148,12 @@ ASSUME EqualAreas ==       \* stated assumption of the property's volume clause 
 (* ------------------------------------------------ queries ---------------------------------------------- *)
 Has(HH, x, n)  == \E l \in Under[x] : n \in HH[l]                  \* n in x.getNuclides()
 NucsAt(HH, x)  == UNION {HH[l] : l \in Under[x]}
-RECURSIVE ND(_, _, _)
-ND(NN, x, n) ==                                                    \* getNumberDensity / getNuclideNumberDensities
+RECURSIVE NDg(_, _, _, _)
+NDg(g, NN, x, n) ==                                                \* getNumberDensity / getNuclideNumberDensities in geometry g
     IF IsLeaf(x) THEN NN[x][n]
-    ELSE LET w(c) == QDiv(Vol[c], RInt(SymOf(x)))
-         IN QDiv(QSumSet(KidsTab[x], LAMBDA c : QMul(w(c), ND(NN, c, n))), QSumSet(KidsTab[x], w))
+    ELSE LET w(c) == QDiv(g.vol[c], RInt(SymOf(x)))
+         IN QDiv(QSumSet(KidsTab[x], LAMBDA c : QMul(w(c), NDg(g, NN, c, n))), QSumSet(KidsTab[x], w))
+ND(NN, x, n) == NDg(GeoTab[hgt], NN, x, n)
 NDvec(NN, x) == [n \in Nuc |-> ND(NN, x, n)]
 
 \* utils/densityTools.py (pure functions; K-free units)
@@ -138,9 +165,10 @@ DT_NumberDensity(n, m, V) == QDiv(m, QMul(V, RInt(W[n])))                       
 DT_MassInGrams(n, V, d)   == QMul(QMul(d, V), RInt(W[n]))                                        \* getMassInGrams
 
 LeafRho(NN, l, S) == QSumSet(S, LAMBDA n : QMul(NN[l][n], RInt(W[n])))
-RECURSIVE Mass(_, _, _)
-Mass(NN, x, S) == IF IsLeaf(x) THEN QMul(LeafRho(NN, x, S), CutVol[x])                           \* Component.getMass
-                  ELSE QSumSet(KidsTab[x], LAMBDA c : Mass(NN, c, S))                            \* ArmiObject.getMass
+RECURSIVE Massg(_, _, _, _)
+Massg(g, NN, x, S) == IF IsLeaf(x) THEN QMul(LeafRho(NN, x, S), g.cut[x])                        \* Component.getMass
+                      ELSE QSumSet(KidsTab[x], LAMBDA c : Massg(g, NN, c, S))                    \* ArmiObject.getMass
+Mass(NN, x, S) == Massg(GeoTab[hgt], NN, x, S)
 Dens(NN, x)       == DT_MassDensity(NDvec(NN, x))                                                \* density()
 MassFracs(NN, x)  == DT_MassFractions(NDvec(NN, x))                                              \* getMassFracs()
 MassesAt(NN, x)   == [n \in Nuc |-> DT_MassInGrams(n, EditVol[x], ND(NN, x, n))]                 \* getMasses()
@@ -191,7 +219,7 @@ SmallSt(st) == LET dens == {st.N[l][n][2] : l \in Leaf, n \in Nuc}
                IN /\ \A d \in dens : d <= LMax
                   /\ FoldSet(LAMBDA d, acc : IF acc > LMax THEN acc ELSE QLcm(d, acc), 1, dens) <= LMax
                   /\ \A l \in Leaf, n \in Nuc : st.N[l][n][1] <= VMax * st.N[l][n][2]
-Accept(a, st2, t) == SmallSt(st2) /\ N' = st2.N /\ H' = st2.H /\ tr' = t /\ act' = a /\ err' = ""
+Accept(a, st2, t) == SmallSt(st2) /\ N' = st2.N /\ H' = st2.H /\ tr' = t /\ hgt' = hgt /\ act' = a /\ err' = ""
 Refuse(a, kind)   == UNCHANGED vars /\ act' = a /\ err' = kind
 
 SetN(x, n, v) ==
@@ -200,7 +228,7 @@ SetN(x, n, v) ==
 UpdateN(x, m) == Accept([n |-> "UpdateN", x |-> x, m |-> m], UpdMap(St, x, m), tr)
 SetNs(x, m)   == Accept([n |-> "SetNs", x |-> x, m |-> m], SetMap(St, x, m), tr)
 Scale(x, f)   == LET st2 == ScaleSt(St, x, f) IN
-                 /\ SmallSt(st2) /\ N' = st2.N /\ H' = st2.H /\ tr' = tr
+                 /\ SmallSt(st2) /\ N' = st2.N /\ H' = st2.H /\ tr' = tr /\ hgt' = hgt
                  /\ act' = [n |-> "Scale", x |-> x, f |-> f]
                  /\ err' = IF ScaleRaises /\ ~IsLeaf(x) THEN "AttributeError" ELSE ""   \* raised after the densities were set
 Clear(x)      == NucsAt(H, x) # {} /\ Accept([n |-> "Clear", x |-> x], ClearSt(St, x), TRUE)
@@ -220,7 +248,33 @@ SetMassFracs(x, fm) ==
                IN IF IsLeaf(x) \/ absent = {} THEN Accept(a, MassFracSt(St, x, fm), tr)
                   ELSE Cardinality(DOMAIN fm) = 1 /\ Refuse(a, "ValueError")        \* nobody holds the nuclide
 
-Init == N = N0 /\ H = H0 /\ tr = FALSE /\ act = [n |-> "Init"] /\ err = ""
+\* vector calls: entry by entry in dict order (= NucSeq order), the first refused entry ends the call with the earlier ones applied
+RECURSIVE MassSeq(_, _, _, _, _)
+MassSeq(r, x, m, i, add) ==
+    IF i > Len(NucSeq) \/ r.err # "" THEN r
+    ELSE LET n == NucSeq[i]
+         IN IF n \notin DOMAIN m \/ (add /\ RIsZero(m[n])) THEN MassSeq(r, x, m, i + 1, add)     \* addMasses: "if mass:"
+            ELSE LET d == DT_NumberDensity(n, m[n], EditVol[x])
+                     v == IF add THEN QAdd(ND(r.st.N, x, n), d) ELSE d
+                 IN IF ~IsLeaf(x) /\ ~Has(r.st.H, x, n) /\ ~RIsZero(v) THEN [st |-> r.st, err |-> "ValueError"]
+                    ELSE MassSeq([st |-> PutN(r.st, x, n, v), err |-> ""], x, m, i + 1, add)
+VectorDone(a, r, t) == SmallSt(r.st) /\ N' = r.st.N /\ H' = r.st.H /\ tr' = t /\ hgt' = hgt /\ act' = a /\ err' = r.err
+AddMasses(x, m) ==
+    /\ \A n \in DOMAIN m : RLeq(RZero, m[n]) \/ RLt(RNeg(m[n]), DT_MassInGrams(n, EditVol[x], ND(N, x, n)))   \* never all there is
+    /\ VectorDone([n |-> "AddMasses", x |-> x, m |-> m], MassSeq([st |-> St, err |-> ""], x, m, 1, TRUE), tr)
+SetMasses(x, m) ==
+    /\ \A n \in DOMAIN m : RLeq(RZero, m[n])
+    /\ VectorDone([n |-> "SetMasses", x |-> x, m |-> m], MassSeq([st |-> ClearSt(St, x), err |-> ""], x, m, 1, FALSE), TRUE)
+SetHeight(b, h, cons) ==
+    LET ratio == RFrac(hgt[b], h)
+        st2 == IF cons THEN FoldSet(LAMBDA n, acc : IF RIsZero(ND(N, b, n)) THEN acc ELSE PutN(acc, b, n, QMul(ND(N, b, n), ratio)),
+                                    St, NucsAt(H, b))
+               ELSE St
+    IN /\ h # hgt[b] /\ (cons => NucsAt(H, b) # {})
+       /\ SmallSt(st2) /\ N' = st2.N /\ H' = st2.H /\ tr' = tr /\ hgt' = [hgt EXCEPT ![b] = h]
+       /\ act' = [n |-> "SetHeight", x |-> b, h |-> h, cons |-> cons] /\ err' = ""
+
+Init == N = N0 /\ H = H0 /\ tr = FALSE /\ hgt = [b \in Blk |-> Height[b]] /\ act = [n |-> "Init"] /\ err = ""
 DoSetN        == \E x \in Targets, n \in Nuc, v \in Vals : SetN(x, n, v)
 DoUpdateN     == \E x \in Targets, m \in Maps : UpdateN(x, m)
 DoSetNs       == \E x \in Targets, m \in Maps : SetNs(x, m)
@@ -230,20 +284,24 @@ DoAddMass     == \E x \in Targets, n \in Nuc, m \in Masses : AddMass(x, n, m)
 DoRemoveMass  == \E x \in Targets, n \in Nuc, m \in Masses : RemoveMass(x, n, m)
 DoSetMass     == \E x \in Targets, n \in Nuc, m \in Masses : SetMass(x, n, m)
 DoSetMassFracs == \E x \in Targets, fm \in FracMaps : SetMassFracs(x, fm)
+DoAddMasses   == \E x \in Targets, m \in AddMaps : AddMasses(x, m)
+DoSetMasses   == \E x \in Targets, m \in SetMaps : SetMasses(x, m)
+DoSetHeight   == \E b \in HTargets, h \in HVals, cons \in BOOLEAN : SetHeight(b, h, cons)
 Next == DoSetN \/ DoUpdateN \/ DoSetNs \/ DoScale \/ DoClear \/ DoAddMass \/ DoRemoveMass \/ DoSetMass \/ DoSetMassFracs
+        \/ DoAddMasses \/ DoSetMasses \/ DoSetHeight
 
 (* ------------------------------- the property, clause by clause (state invariants) ---------------------- *)
 \* per-state tables, evaluated once per invariant (TLC does not memoise operators)
 NDT(NN) == TLCEval([x \in Node |-> TLCEval(NDvec(NN, x))])
 MT(NN)  == TLCEval([x \in Node |-> TLCEval([n \in Nuc |-> Mass(NN, x, {n})])])
 IsRat(q) == q \in Int \X (Nat \ {0}) /\ q = Norm(q[1], q[2])
-TypeOK == /\ \A l \in Leaf : H[l] \subseteq Nuc /\ \A n \in Nuc : IsRat(N[l][n]) /\ (n \notin H[l] => RIsZero(N[l][n]))
+TypeOK == /\ hgt \in [Blk -> HDom]
+          /\ \A l \in Leaf : H[l] \subseteq Nuc /\ \A n \in Nuc : IsRat(N[l][n]) /\ (n \notin H[l] => RIsZero(N[l][n]))
           /\ \A l \in Leaf, n \in Nuc : RLeq(RZero, N[l][n])
 \* "its volume is the sum of its children's volumes (reduced by the symmetry factor where a block is cut)"
-\* (a statement about the constant tree; it holds because of ASSUME EqualAreas)
+\* (in every geometry reached by height changes; it holds because of ASSUME EqualAreas)
 VolumeAdditive == \A x \in Node \ Leaf :
     Vol[x] = QDiv(QSumSet(KidsTab[x], LAMBDA c : Vol[c]), RInt(IF IsBlk(x) THEN Sym[x] ELSE 1))
-ASSUME VolumeAdditiveHolds == VolumeAdditive
 \* "its mass (total, or of any nuclide or element selection) is the sum of its children's masses": for every selection
 \* the mass of the object is the sum over its children, over its leaves, and over the nuclides of the selection
 MassAdditive == LET m == MT(N) IN \A x \in Node \ Leaf : \A s \in DOMAIN Sel :
@@ -275,44 +333,62 @@ ConversionsInverse == LET nd == NDT(N) IN \A x \in Node :
        /\ \A n \in Nuc, m \in Masses : DT_MassInGrams(n, Vol[x], DT_NumberDensity(n, m, Vol[x])) = m
 
 (* ------------------------------- read-back clauses (properties of steps) -------------------------------- *)
-OthersKept(x, n) == \A k \in Nuc \ {n} : ND(N', x, k) = ND(N, x, k)
+\* geometry is state: the queries in the post-state
+NDp(x, n)     == NDg(GeoTab[hgt'], N', x, n)
+Massp(x, S)   == Massg(GeoTab[hgt'], N', x, S)
+NDvecp(x)     == [n \in Nuc |-> NDp(x, n)]
+Densp(x)      == DT_MassDensity(NDvecp(x))
+MassFracsp(x) == DT_MassFractions(NDvecp(x))
+OthersKept(x, n) == \A k \in Nuc \ {n} : NDp(x, k) = ND(N, x, k)
 Ok(name) == act'.n = name /\ err' = ""
 Cut(x) == IsLeaf(x) /\ Sym[Parent[x]] # 1 /\ ~LeafVolCut
 \* "Setting ... the number density ... of a nuclide at any level makes that nuclide read back, at the same level, exactly
 \* the requested value while every other nuclide's density is unchanged"
-SetNReadsBack == Ok("SetN") => ND(N', act'.x, act'.nuc) = act'.v /\ OthersKept(act'.x, act'.nuc)
+SetNReadsBack == Ok("SetN") => NDp(act'.x, act'.nuc) = act'.v /\ OthersKept(act'.x, act'.nuc)
 UpdateNReadsBack == Ok("UpdateN") =>
-    \A n \in Nuc : ND(N', act'.x, n) = IF n \in DOMAIN act'.m THEN act'.m[n] ELSE ND(N, act'.x, n)
+    \A n \in Nuc : NDp(act'.x, n) = IF n \in DOMAIN act'.m THEN act'.m[n] ELSE ND(N, act'.x, n)
 SetNsReadsBack == Ok("SetNs") =>
-    \A n \in Nuc : ND(N', act'.x, n) = IF n \in DOMAIN act'.m THEN act'.m[n] ELSE RZero
-ScaleReadsBack == act'.n = "Scale" => \A n \in Nuc : ND(N', act'.x, n) = QMul(ND(N, act'.x, n), act'.f)
-ClearReadsBack == Ok("Clear") => \A n \in Nuc : RIsZero(ND(N', act'.x, n)) /\ NucsAt(H', act'.x) = NucsAt(H, act'.x)
-MassDelta(x, n) == QSub(Mass(N', x, {n}), Mass(N, x, {n}))
+    \A n \in Nuc : NDp(act'.x, n) = IF n \in DOMAIN act'.m THEN act'.m[n] ELSE RZero
+ScaleReadsBack == act'.n = "Scale" => \A n \in Nuc : NDp(act'.x, n) = QMul(ND(N, act'.x, n), act'.f)
+ClearReadsBack == Ok("Clear") => \A n \in Nuc : RIsZero(NDp(act'.x, n)) /\ NucsAt(H', act'.x) = NucsAt(H, act'.x)
+MassDelta(x, n) == QSub(Massp(x, {n}), Mass(N, x, {n}))
 AddMassReadsBack == (Ok("AddMass") /\ ~Cut(act'.x)) => MassDelta(act'.x, act'.nuc) = act'.m /\ OthersKept(act'.x, act'.nuc)
 RemoveMassReadsBack == (Ok("RemoveMass") /\ ~Cut(act'.x)) =>
     MassDelta(act'.x, act'.nuc) = RNeg(act'.m) /\ OthersKept(act'.x, act'.nuc)
-SetMassReadsBack == (Ok("SetMass") /\ ~Cut(act'.x)) => Mass(N', act'.x, {act'.nuc}) = act'.m /\ OthersKept(act'.x, act'.nuc)
-CutLeafMassReadsBack ==          \* the same three clauses on components of blocks cut by symmetry lines (see header)
-    (err' = "" /\ act'.n \in {"AddMass", "RemoveMass", "SetMass"} /\ IsLeaf(act'.x)) =>
-        IF act'.n = "SetMass" THEN Mass(N', act'.x, {act'.nuc}) = act'.m
-        ELSE MassDelta(act'.x, act'.nuc) = (IF act'.n = "AddMass" THEN act'.m ELSE RNeg(act'.m))
+SetMassReadsBack == (Ok("SetMass") /\ ~Cut(act'.x)) => Massp(act'.x, {act'.nuc}) = act'.m /\ OthersKept(act'.x, act'.nuc)
+\* "setting, adding, removing ... the mass of a nuclide": the vector calls addMasses / setMasses, when they complete
+VectorReadsBack == LET x == act'.x  m == act'.m IN
+    \A n \in Nuc : IF act'.n = "AddMasses" THEN MassDelta(x, n) = (IF n \in DOMAIN m THEN m[n] ELSE RZero)
+                    ELSE Massp(x, {n}) = (IF n \in DOMAIN m THEN m[n] ELSE RZero)
+VectorMassReadsBack == (err' = "" /\ act'.n \in {"AddMasses", "SetMasses"} /\ ~Cut(act'.x)) => VectorReadsBack
+\* a height change keeps every density (conserveMass = False) or every mass at the block and above (conserveMass = True)
+HeightChange == act'.n = "SetHeight" =>
+    /\ H' = H /\ hgt' = [hgt EXCEPT ![act'.x] = act'.h]
+    /\ ~act'.cons => N' = N
+    /\ act'.cons => \A x \in {act'.x, Parent[act'.x], CoreId} : \A n \in Nuc : Massp(x, {n}) = Mass(N, x, {n})
+CutLeafMassReadsBack ==          \* the same clauses on components of blocks cut by symmetry lines (see header)
+    /\ (err' = "" /\ act'.n \in {"AddMass", "RemoveMass", "SetMass"} /\ IsLeaf(act'.x)) =>
+          IF act'.n = "SetMass" THEN Massp(act'.x, {act'.nuc}) = act'.m
+          ELSE MassDelta(act'.x, act'.nuc) = (IF act'.n = "AddMass" THEN act'.m ELSE RNeg(act'.m))
+    /\ (err' = "" /\ act'.n \in {"AddMasses", "SetMasses"} /\ IsLeaf(act'.x)) => VectorReadsBack
 \* "assigning mass fractions reads back those fractions with the remaining nuclides keeping their proportions and the
 \* total density unchanged"
 Feasible(x, fm) == \/ QSumSet(DOMAIN fm, LAMBDA n : fm[n]) = ROne
                    \/ \E o \in NucsAt(H, x) \ DOMAIN fm : ~RIsZero(ND(N, x, o))
 SetMassFracsReadsBack == (Ok("SetMassFracs") /\ Feasible(act'.x, act'.m)) =>
-    LET x == act'.x  fm == act'.m  new == MassFracs(N', x)  old == MassFracs(N, x)
+    LET x == act'.x  fm == act'.m  new == MassFracsp(x)  old == MassFracs(N, x)
     IN /\ \A n \in DOMAIN fm : new[n] = fm[n]
-       /\ Dens(N', x) = Dens(N, x)
+       /\ Densp(x) = Dens(N, x)
        /\ \A o1, o2 \in Nuc \ DOMAIN fm : QMul(new[o1], old[o2]) = QMul(new[o2], old[o1])
 \* edits never reach outside the edited object; refusals change nothing
 OutsideUntouched == act'.n # "Init" => \A l \in Leaf \ Under[act'.x] : N'[l] = N[l] /\ H'[l] = H[l]
-RefusalsChangeNothing == err' = "ValueError" => UNCHANGED vars
+RefusalsChangeNothing == (err' = "ValueError" /\ act'.n \notin {"AddMasses", "SetMasses"}) => UNCHANGED vars
 \* component-level setters make the component hold exactly what was set
-KeysGrowOnly == (err' # "ValueError" /\ act'.n \notin {"SetNs", "Init"}) => \A l \in Leaf : H[l] \subseteq H'[l]
+KeysGrowOnly == act'.n \notin {"SetNs", "Init"} => \A l \in Leaf : H[l] \subseteq H'[l]
 
 ReadBack == [][/\ SetNReadsBack /\ UpdateNReadsBack /\ SetNsReadsBack /\ ScaleReadsBack /\ ClearReadsBack
-               /\ AddMassReadsBack /\ RemoveMassReadsBack /\ SetMassReadsBack /\ SetMassFracsReadsBack]_allvars
+               /\ AddMassReadsBack /\ RemoveMassReadsBack /\ SetMassReadsBack /\ SetMassFracsReadsBack
+               /\ VectorMassReadsBack /\ HeightChange]_allvars
 Locality == [][OutsideUntouched /\ RefusalsChangeNothing /\ KeysGrowOnly]_allvars
 CutLeafReadBack == [][CutLeafMassReadsBack]_allvars
 \* "scaling the number density ... at any level": the call completes at every level (see header: ScaleRaises)
@@ -321,7 +397,7 @@ ScaleAtAnyLevel == [][ScaleCompletes]_allvars
 
 (* --------------------------------- what is emitted as the oracle for the real code ----------------------- *)
 HB(HH) == [l \in Leaf |-> [i \in 1..3 |-> NucSeq[i] \in HH[l]]]
-Vars == [N |-> N, H |-> HB(H), tr |-> tr]
+Vars == [N |-> N, H |-> HB(H), tr |-> tr, hgt |-> [i \in 1..NBlk |-> hgt[NLeaf + i]]]
 \* what every query of the real object has to return in this state ("undefined": not compared, see header)
 ObsOf(x, v) ==
     LET rho == DT_MassDensity(v)
@@ -335,6 +411,6 @@ ObsOf(x, v) ==
         dens   |-> IF IsLeaf(x) /\ RIsZero(rho) THEN <<-1, 1>> ELSE rho,         \* -1: Component.density() defers to the material
         mf     |-> IF RIsZero(rho) THEN [n \in Nuc |-> <<-1, 1>>] ELSE DT_MassFractions(v)]   \* -1: not compared
 Obs == LET nd == NDT(N) IN [x \in Node |-> ObsOf(x, nd[x])]
-Tree == [parent |-> Parent, area |-> Area, height |-> [b \in Blk |-> Height[b]], sym |-> [b \in Blk |-> Sym[b]],
+Tree == [parent |-> Parent, area |-> Area, height |-> [b \in Blk |-> Height[b]], hdom |-> HDom, sym |-> [b \in Blk |-> Sym[b]],
          w |-> W, nleaf |-> NLeaf, nblk |-> NBlk, nasm |-> NAsm, leafVolCut |-> LeafVolCut, scaleRaises |-> ScaleRaises, targets |-> Targets]
 ==========================================================================================================
